@@ -117,15 +117,27 @@ def find_nodes_by_name(nodes: List["Node"], name: str) -> List["Node"]:
     return [x for x in nodes if x.name and x.name.value == name]
 
 
-def _find_var_usage_in_spread(spreads, per_fragment, used_vars=None):
+def _find_var_usage_in_spread(
+    spreads, per_fragment, used_vars=None, visited_fragments=None
+):
     if not used_vars:
         used_vars = []
 
+    # Each fragment is looked at once, however many times (and through
+    # however many other fragments) it is spread
+    if visited_fragments is None:
+        visited_fragments = set()
+
     for spread in spreads:
+        if spread.name.value in visited_fragments:
+            continue
+        visited_fragments.add(spread.name.value)
+
         used_vars = _find_var_usage_in_spread(
             per_fragment.get(spread.name.value, {}).get("spreads", []),
             per_fragment,
             used_vars,
+            visited_fragments,
         )
         used_vars.extend(
             per_fragment.get(spread.name.value, {}).get("used_vars", [])
